@@ -54,7 +54,11 @@ def main() -> int:
             return 2
         for attempt in range(4):
             # the two integration tests bind fixed ports; they collide when several worktrees run the suite at once, so retry
-            rc_suite, out_suite = sh([PY, "-m", "pytest", "-q", "-p", "no:cacheprovider", "--timeout=900", "-q"], wt)
+            # a private network namespace keeps the fixed ports of the integration tests apart when several suites run at once
+            cmd = PY + " -m pytest -q -p no:cacheprovider --timeout=900 -q"
+            rc_suite, out_suite = sh(["unshare", "-rn", "sh", "-c", "ip link set lo up; " + cmd], wt)
+            if "unshare" in out_suite and rc_suite != 0 and "passed" not in out_suite:
+                rc_suite, out_suite = sh(cmd.split(), wt)
             if rc_suite == 0 or "Address already in use" not in out_suite and "test_integration" not in out_suite:
                 break
             import time
